@@ -39,7 +39,7 @@ class Agg:
     def __init__(self, ty, variant, fields, names=None): self.ty = ty; self.variant = variant; self.fields = fields; self.names = names
     def __repr__(self): return "%s%s(%s)" % (self.ty, ("::" + self.variant) if self.variant else "", ", ".join(repr(c.v)[:80] for c in self.fields))
 class Coroutine:
-    __slots__ = ('name', 'fields', 'state', 'variants', 'crate')
+    __slots__ = ('name', 'fields', 'state', 'variants', 'crate', 'body')
     ty = 'Coroutine'; variant = None
     def __init__(self, name, upvars, crate): self.name = name; self.fields = [Cell(u) for u in upvars]; self.state = 0; self.variants = {}; self.crate = crate
 class VariantView:
@@ -569,7 +569,13 @@ class Interp:
         if k == 'cast': return self.cast(fr, rv)
         if k == 'closure':
             ups = [self.operand(fr, o) for _, o in rv[2]]
-            if rv[1].startswith('{coroutine@') or rv[1].startswith('{async'): return Coroutine(rv[1], ups, fr.fn.crate)
+            if rv[1].startswith('{coroutine@') or rv[1].startswith('{async'):
+                co = Coroutine(rv[1], ups, fr.fn.crate)
+                # the poll body of the coroutine created in fn F is F::{closure#k} (the closure whose first parameter is the pinned coroutine)
+                cands = [n for n in self.fns if n.startswith(fr.fn.name + '::{closure#') and n.count('{closure#') == fr.fn.name.count('{closure#') + 1
+                         and self.fns[n].params and self.fns[n].params[0].strip().startswith('_1: Pin<&mut {')]
+                co.body = cands[0] if len(cands) == 1 else None
+                return co
             return Closure(rv[1], ups, fr.fn.crate)
         raise Unsupported("rvalue " + str(rv))
 
@@ -733,6 +739,10 @@ class Interp:
         if n is None: raise Unsupported("closure body not found: " + c.name)
         return n
 
+    def coroutine_body(self, co):
+        n = getattr(co, 'body', None)
+        if n is None: raise Unsupported("coroutine body unknown: " + co.name)
+        return n
     def call_value(self, f, args):
         """call a closure / fn pointer value with positional args"""
         while isinstance(f, Ref): f = f.cell.v
